@@ -513,6 +513,10 @@ pub fn expected_group_bytes(job: &Job, format: &Option<String>, print: bool) -> 
     catch(|| driver::format_output(&fs, assembly.decls.as_ref().unwrap(), assembly.defs.as_ref().unwrap(), output, fmt)).ok()
 }
 
+pub fn std_file_content(name: &str) -> Option<&'static str> {
+    STD_FILES.iter().find(|(n, _)| *n == name).map(|(_, c)| *c)
+}
+
 pub fn std_file_names() -> Vec<&'static str> {
     STD_FILES.iter().map(|(n, _)| *n).collect()
 }
